@@ -23,6 +23,17 @@ pub fn preimage(k: usize) -> [u8; 32] {
 }
 
 pub fn hash_of(k: usize) -> sha256::Hash {
+    if k == MAX_HASHES {
+        // the last hash of the catalogue is a "twin" of h1: other bytes, but the same text when every byte is
+        // printed without zero padding (0a bc -> "abc" <- ab 0c).  Nobody knows a preimage of it.
+        let mut b = sha256::Hash::hash(&preimage(1)).to_byte_array();
+        if let Some(i) = (0..31).find(|i| b[*i] >= 1 && b[*i] <= 15 && b[*i + 1] >= 0x10) {
+            let (x, y) = (b[i], b[i + 1]);
+            b[i] = (x << 4) | (y >> 4);
+            b[i + 1] = y & 0x0f;
+            return sha256::Hash::from_byte_array(b);
+        }
+    }
     sha256::Hash::hash(&preimage(k))
 }
 
